@@ -22,6 +22,7 @@
 #include <atomic>
 #include <thread>
 #include <utility>
+#include "celma/common/detail/verif_point.hpp"
 
 
 namespace celma { namespace common {
@@ -87,6 +88,13 @@ public:
    // move-assignment is also not allowed
    ManagedThread& operator =( ManagedThread&&) = delete;
 
+#ifdef CELMA_VERIF
+private:
+   /// Verification point, reached in the constructor after the base classes
+   /// were initialised, i.e. after the thread was started.
+   verif::PointMember  mVerifAfterSpawn{ "mt.ctor.after_spawn"};
+#endif
+
 }; // ManagedThread
 
 
@@ -100,9 +108,13 @@ template< class Function, class... Args>
                    ( Args&&... lbd_args)
                      noexcept( noexcept( f( std::forward< Args>( lbd_args)...)))
                    {
+                      CELMA_VERIF_POINT( "mt.thr.before_set");
                       flag->store( true, std::memory_order_release);
+                      CELMA_VERIF_POINT( "mt.thr.after_set");
                       func( std::forward< Args>( lbd_args)...);
+                      CELMA_VERIF_POINT( "mt.thr.after_func");
                       flag->store( false, std::memory_order_release);
+                      CELMA_VERIF_POINT( "mt.thr.after_clear");
                    },
                    std::forward< Args>( args)...)
 {
